@@ -7,7 +7,7 @@ from . import common as K
 PROP = "C06"
 RULE = ("cases: (a) sym / bin — a requested debug id (bin: debug id, code id, or both) and 0..7 candidates in arbitrary order drawn from every non-emptied fixture (ELF, ELF debug files, Mach-O thin and fat, "
         "dSYM DWARF, PE, PDB, object files, archives, scripts), copies of ELF fixtures whose build-id note has one byte flipped at each of the 20 positions (same debug id / different code id for bytes 16..19), "
-        "truncated copies, generated fat archives, missing / empty / garbage files; requests for ids of present files, of absent files, of flipped copies; "
+        "truncated copies, generated fat archives, missing / empty / garbage files; requests for ids of present files, of absent files, of flipped copies, and for the id of a present file with another age (lower or higher); "
         "(b) fat — generated fat archives of 1..4 thin Mach-O fixtures (duplicates allowed) and the fixture fat archives, loaded with the id of a member, a foreign id or no disambiguator, the member "
         "ids computed independently from LC_UUID in Python; (c) companion — .gnu_debuglink targets (regular-debuglink, dwp-debuglink) and the dwz supplementary file of ls-linux under byte flips everywhere "
         "and specifically in each build-id byte, truncation, appended bytes, zeroed ranges, and replacement by other debug files. Observed: ids of what load_symbol_map / load_binary return, and whether lookups "
@@ -261,8 +261,9 @@ def gen(tier, rng, scale):
                 ms.insert(rng.below(len(ms) + 1), target)
                 tdesc = "fat:" + ",".join(ms)
             elif q == 3:
-                # same build, different age / last digit
-                req = req[:-1] + ("1" if req[-1] != "1" else "2")
+                # same build, different age: lower and higher than the file's (a candidate with a HIGHER age than requested is not the requested build either)
+                req = req[:-1] + rng.choice([a for a in ("0", "1", "2", "9", "a", "1f") if a != req[-1].lower()])
+                target = None
             n = rng.choice([0, 1, 2, 3, 3, 4, 5, 7])
             cs = some_cands(target, n)
             if rng.chance(1, 4):
@@ -297,6 +298,9 @@ def gen(tier, rng, scale):
                     tdesc = "flip:%s:%d:%d" % (target, k, mask)
             if rng.chance(1, 10):
                 req = rng.choice([ZERO[:-1] + "0", "code:00112233445566778899aabbccddeeff00112233", "code:5EBA814695000"])
+            elif rng.chance(1, 8) and bd:
+                req = bd[:-1] + rng.choice([a for a in ("0", "1", "2", "a") if a != bd[-1].lower()])       # the same GUID with another age, lower or higher
+                target = None
             n = rng.choice([0, 1, 2, 3, 3, 4, 5, 7])
             cs = some_cands(target, n)
             if rng.chance(1, 4):
